@@ -30,9 +30,13 @@ def digs (ds : List Nat) : List Char := ds.map digitChar
 theorem digit_facts : ∀ d, d < 10 →
     isDigit (digitChar d) = true ∧ digitVal (digitChar d) = d := by decide
 
-theorem scanLoop_accept (s : St) (c : Char) (cs : List Char) (h : accepts s c = true) :
+theorem scanLoop_accept (s : St) (c : Char) (cs : List Char) (h : accepts s c = true)
+    (hf : s.fail = false := by rfl) :
     scanLoop s (c :: cs) = scanLoop (step s c) cs := by
-  simp [scanLoop, h]
+  simp [scanLoop, h, hf]
+
+theorem scanLoop_failed (s : St) (cs : List Char) (hf : s.fail = true) : scanLoop s cs = s := by
+  cases cs <;> simp [scanLoop, hf]
 
 theorem scanLoop_stop (s : St) (c : Char) (cs : List Char) (h : accepts s c = false) :
     scanLoop s (c :: cs) = s := by
@@ -43,7 +47,7 @@ theorem accepts_digit (s : St) (d : Nat) (h : d < 10) : accepts s (digitChar d) 
 
 /-- mantissa digits (before or after the dot) -/
 theorem mant_digits (s : St) (ds : List Nat) (rest : List Char)
-    (hm : s.aExp = true ∨ s.nDig = 0) (hd : ∀ d ∈ ds, d < 10) :
+    (hm : s.aExp = true ∨ s.nDig = 0) (hd : ∀ d ∈ ds, d < 10) (hf : s.fail = false) :
     scanLoop s (digs ds ++ rest) = scanLoop
       { s with num := acc ds s.num
                den := if s.aDot then s.den else s.den * 10 ^ ds.length
@@ -58,25 +62,49 @@ theorem mant_digits (s : St) (ds : List Nat) (rest : List Char)
     have hds : ∀ d' ∈ ds, d' < 10 := fun d' h' => hd d' (List.mem_cons_of_mem _ h')
     obtain ⟨f1, f2⟩ := digit_facts d hd0
     simp only [digs, List.map_cons, List.cons_append]
-    rw [scanLoop_accept _ _ _ (accepts_digit s d hd0)]
+    rw [scanLoop_accept _ _ _ (accepts_digit s d hd0) hf]
     have hcond : (s.aExp || s.nDig == 0) = true := by
       rcases hm with h | h <;> simp [h]
     have hstep : step s (digitChar d) =
         { s with n := s.n + 1, den := if s.aDot then s.den else s.den * 10, num := s.num * 10 + d,
                  nDig := s.nDig + 1, aExp := true, aSgn := false } := by
       simp [step, f1, f2, hcond]
-    have ih' := ih (step s (digitChar d)) (by rw [hstep]; exact Or.inl rfl) hds
+    have ih' := ih (step s (digitChar d)) (by rw [hstep]; exact Or.inl rfl) hds (by rw [hstep]; exact hf)
     simp only [digs] at ih'
     rw [ih', hstep]
     congr 1
-    obtain ⟨aDot, aExp, aExpSgn, aSgn, aDiv, lExp, sgn, expSgn, nDig, num, den, first, n⟩ := s
+    obtain ⟨aDot, aExp, aExpSgn, aSgn, aDiv, lExp, sgn, expSgn, nDig, num, den, first, n, fail⟩ := s
     cases aDot <;> simp [acc, pow_succ]
     · refine ⟨by omega, by ring, by omega⟩
     · refine ⟨by omega, by omega⟩
 
+/-- the exponent guard lets the digits `ds` through when the accumulator starts at `a`: before each
+digit the accumulator is at most 9999 -/
+def GuardOK : Nat → List Nat → Prop
+  | _, [] => True
+  | a, d :: ds => a ≤ 9999 ∧ GuardOK (10 * a + d) ds
+
+theorem acc_ge (ds : List Nat) (a : Nat) : a ≤ acc ds a := by
+  rw [acc_eq]
+  have : 1 ≤ 10 ^ ds.length := Nat.one_le_pow _ _ (by norm_num)
+  nlinarith
+
+/-- an exponent below 100000 (leading zeros allowed) passes the guard -/
+theorem guardOK_of_lt (ds : List Nat) (a : Nat) (h : acc ds a < 100000) : GuardOK a ds := by
+  induction ds generalizing a with
+  | nil => trivial
+  | cons d ds ih =>
+    have h' : acc ds (a * 10 + d) < 100000 := by simpa [acc] using h
+    refine ⟨?_, ?_⟩
+    · have := acc_ge ds (a * 10 + d)
+      omega
+    · have : 10 * a + d = a * 10 + d := by ring
+      rw [this]; exact ih _ h'
+
 /-- exponent digits -/
 theorem exp_digits (s : St) (ds : List Nat) (rest : List Char)
-    (hm : s.aExp = false) (hn : s.nDig ≠ 0) (hd : ∀ d ∈ ds, d < 10) :
+    (hm : s.aExp = false) (hn : s.nDig ≠ 0) (hd : ∀ d ∈ ds, d < 10) (hf : s.fail = false)
+    (hg : GuardOK s.lExp ds) :
     scanLoop s (digs ds ++ rest) = scanLoop
       { s with lExp := acc ds s.lExp
                aExpSgn := s.aExpSgn && ds.isEmpty
@@ -89,16 +117,18 @@ theorem exp_digits (s : St) (ds : List Nat) (rest : List Char)
     have hds : ∀ d' ∈ ds, d' < 10 := fun d' h' => hd d' (List.mem_cons_of_mem _ h')
     obtain ⟨f1, f2⟩ := digit_facts d hd0
     simp only [digs, List.map_cons, List.cons_append]
-    rw [scanLoop_accept _ _ _ (accepts_digit s d hd0)]
+    rw [scanLoop_accept _ _ _ (accepts_digit s d hd0) hf]
     have hcond : (s.aExp || s.nDig == 0) = false := by simp [hm, hn]
+    have hle : ¬ s.lExp > 9999 := not_lt.mpr hg.1
     have hstep : step s (digitChar d) =
         { s with n := s.n + 1, lExp := 10 * s.lExp + d, aExpSgn := false, aSgn := false } := by
-      simp [step, f1, f2, hcond]
+      simp [step, f1, f2, hcond, hle]
     have ih' := ih (step s (digitChar d)) (by rw [hstep]; exact hm) (by rw [hstep]; exact hn) hds
+      (by rw [hstep]; exact hf) (by rw [hstep]; exact hg.2)
     simp only [digs] at ih'
     rw [ih', hstep]
     congr 1
-    obtain ⟨aDot, aExp, aExpSgn, aSgn, aDiv, lExp, sgn, expSgn, nDig, num, den, first, n⟩ := s
+    obtain ⟨aDot, aExp, aExpSgn, aSgn, aDiv, lExp, sgn, expSgn, nDig, num, den, first, n, fail⟩ := s
     simp [acc]
     refine ⟨?_, ?_⟩ <;> first | omega | (congr 1; ring)
 
@@ -137,6 +167,7 @@ structure Lit.WF (l : Lit) : Prop where
   fpd : ∀ d ∈ l.fdigits, d < 10
   exd : ∀ d ∈ l.edigits, d < 10
   one : l.ip ++ l.fdigits ≠ []
+  exg : GuardOK 0 l.edigits       -- the exponent has at most five significant digits (`guardOK_of_lt`)
 
 /-- the rational the literal spells -/
 def Lit.value (l : Lit) : Rat :=
@@ -181,7 +212,7 @@ def S2 (l : Lit) : St :=
 
 theorem phase2 (l : Lit) (hw : l.WF) (r : List Char) :
     scanLoop (S1 l) (digs l.ip ++ r) = scanLoop (S2 l) r := by
-  rw [mant_digits (S1 l) l.ip r (Or.inr rfl) hw.ipd]
+  rw [mant_digits (S1 l) l.ip r (Or.inr rfl) hw.ipd rfl]
   congr 1
   simp [S1, S2]
 
@@ -207,6 +238,7 @@ theorem phase3 (l : Lit) (hw : l.WF) (r : List Char) :
     rw [hstep, mant_digits _ f r _ hfd]
     · congr 1
       simp [S2, S1]
+    · rfl
     · by_cases hi : l.ip.isEmpty
       · right; simp [S2, S1]; exact List.isEmpty_iff.mp hi |>.symm ▸ rfl
       · left; simp [S2, S1, hi]
@@ -223,6 +255,7 @@ structure S3Facts (l : Lit) : Prop where
   num : (S3 l).num = acc l.fdigits (acc l.ip 0)
   den : (S3 l).den = 10 ^ l.fdigits.length
   n : (S3 l).n = l.sg.chars.length + l.ip.length + (match l.fp with | none => 0 | some f => 1 + f.length)
+  fail : (S3 l).fail = false
 
 theorem S3_facts (l : Lit) (hw : l.WF) : S3Facts l := by
   have hone := hw.one
@@ -280,7 +313,10 @@ theorem phase4 (l : Lit) (hw : l.WF) (r : List Char) :
     simp only [List.cons_append, List.append_assoc]
     have hacc : accepts (S3 l) (if up then 'E' else 'e') = true := by
       cases up <;> simp [accepts, F.aExp, isDigit]
-    rw [scanLoop_accept _ _ _ hacc]
+    rw [scanLoop_accept _ _ _ hacc F.fail]
+    have heg : GuardOK 0 e := by
+      have := hw.exg; simp only [Lit.edigits, he] at this; exact this
+    have hf3e : (S3e l).fail = false := F.fail
     have hstep : step (S3 l) (if up then 'E' else 'e') = S3e l := by
       cases up <;> simp [step, isDigit, S3e]
     rw [hstep]
@@ -288,25 +324,25 @@ theorem phase4 (l : Lit) (hw : l.WF) (r : List Char) :
     cases s with
     | none =>
       simp only [Sign.chars, List.nil_append]
-      rw [exp_digits (S3e l) e r rfl hn1 hed]
+      rw [exp_digits (S3e l) e r rfl hn1 hed hf3e (by show GuardOK (S3 l).lExp e; rw [F.lExp]; exact heg)]
       congr 1
       simp [S3e, Sign.isNone, Sign.neg, F.lExp, F.expSgn]
     | plus =>
       simp only [Sign.chars, List.cons_append, List.nil_append]
-      rw [scanLoop_accept _ _ _ (by simp [accepts, S3e])]
+      rw [scanLoop_accept _ _ _ (by simp [accepts, S3e]) hf3e]
       have hs2 : step (S3e l) '+' = S3s l false := by
         simp [step, isDigit, S3e, S3s, F.expSgn]
       have hn2 : (S3s l false).nDig ≠ 0 := F.nDig
-      rw [hs2, exp_digits (S3s l false) e r rfl hn2 hed]
+      rw [hs2, exp_digits (S3s l false) e r rfl hn2 hed F.fail (by show GuardOK (S3 l).lExp e; rw [F.lExp]; exact heg)]
       congr 1
       simp [S3s, Sign.isNone, Sign.neg, F.lExp, Sign.chars]
     | minus =>
       simp only [Sign.chars, List.cons_append, List.nil_append]
-      rw [scanLoop_accept _ _ _ (by simp [accepts, S3e])]
+      rw [scanLoop_accept _ _ _ (by simp [accepts, S3e]) hf3e]
       have hs2 : step (S3e l) '-' = S3s l true := by
         simp [step, isDigit, S3e, S3s]
       have hn2 : (S3s l true).nDig ≠ 0 := F.nDig
-      rw [hs2, exp_digits (S3s l true) e r rfl hn2 hed]
+      rw [hs2, exp_digits (S3s l true) e r rfl hn2 hed F.fail (by show GuardOK (S3 l).lExp e; rw [F.lExp]; exact heg)]
       congr 1
       simp [S3s, Sign.isNone, Sign.neg, F.lExp, Sign.chars]
 
@@ -358,8 +394,10 @@ theorem scan_literal (l : Lit) (hw : l.WF) (rest : List Char) (ht : Term rest) :
     | some f => simp only []; omega
   have hfirst : (S4 l).first = none := by
     unfold S4; cases l.ex <;> simp [F.first]
+  have hfail : (S4 l).fail = false := by
+    unfold S4; cases l.ex <;> simp [F.fail]
   unfold result
-  rw [hn, if_neg hpos, hfirst]
+  rw [hfail, if_neg (by simp), hn, if_neg hpos, hfirst]
   simp only [Prod.mk.injEq, true_and, Val.ok.injEq]
   have hden : (S4 l).den = 10 ^ l.fdigits.length := by unfold S4; cases l.ex <;> simp [F.den]
   have hnum : (S4 l).num = acc l.fdigits (acc l.ip 0) := by unfold S4; cases l.ex <;> simp [F.num]
@@ -385,7 +423,9 @@ theorem step_n (s : St) (c : Char) : (step s c).n = s.n + 1 := by
   unfold step
   simp only
   split
-  · split <;> rfl
+  · split
+    · rfl
+    · split <;> rfl
   · split
     · rfl
     · split
@@ -400,8 +440,10 @@ theorem scanLoop_n_le (s : St) (cs : List Char) : (scanLoop s cs).n ≤ s.n + cs
   | cons c cs ih =>
     unfold scanLoop
     split
-    · have := ih (step s c); rw [step_n] at this; simp only [List.length_cons]; omega
     · simp
+    · split
+      · have := ih (step s c); rw [step_n] at this; simp only [List.length_cons]; omega
+      · simp
 
 theorem scan_consumes_le (cs : List Char) : (scan cs).1 ≤ cs.length := by
   unfold scan result
@@ -410,11 +452,13 @@ theorem scan_consumes_le (cs : List Char) : (scan cs).1 ≤ cs.length := by
   split
   · simp
   · split
-    · simpa using this
-    · simp only []
-      split
-      · simp
+    · simp
+    · split
       · simpa using this
+      · simp only []
+        split
+        · simp
+        · simpa using this
 
 theorem scan_no_div_zero (cs : List Char) (q : Rat) (n : Nat) (h : scan cs = (n, Val.ok q)) :
     ∀ v0, (scanLoop {} cs).first = some v0 →
@@ -423,8 +467,88 @@ theorem scan_no_div_zero (cs : List Char) (q : Rat) (n : Nat) (h : scan cs = (n,
   unfold scan result at h
   split at h
   · cases h
-  · rw [hv] at h
-    simp only [hz, ↓reduceIte] at h
-    cases h
+  · split at h
+    · cases h
+    · rw [hv] at h
+      simp only [hz, ↓reduceIte] at h
+      cases h
+
+/-! ### the exponent guard (fix d278e6f) -/
+
+/-- once the guard has tripped nothing is reported -/
+theorem result_failed (s : St) (h : s.fail = true) : result s = (0, Val.none) := by
+  unfold result; simp [h]
+
+/-- exponent digits that do not pass the guard make the scanner give up -/
+theorem exp_digits_fail (s : St) (ds : List Nat) (rest : List Char)
+    (hm : s.aExp = false) (hn : s.nDig ≠ 0) (hd : ∀ d ∈ ds, d < 10) (hf : s.fail = false)
+    (hg : ¬ GuardOK s.lExp ds) : (scanLoop s (digs ds ++ rest)).fail = true := by
+  induction ds generalizing s with
+  | nil => exact absurd trivial hg
+  | cons d ds ih =>
+    have hd0 : d < 10 := hd d (List.mem_cons_self ..)
+    have hds : ∀ d' ∈ ds, d' < 10 := fun d' h' => hd d' (List.mem_cons_of_mem _ h')
+    obtain ⟨f1, f2⟩ := digit_facts d hd0
+    simp only [digs, List.map_cons, List.cons_append]
+    rw [scanLoop_accept _ _ _ (accepts_digit s d hd0) hf]
+    have hcond : (s.aExp || s.nDig == 0) = false := by simp [hm, hn]
+    by_cases hle : s.lExp > 9999
+    · have hstep : (step s (digitChar d)).fail = true := by
+        simp [step, f1, hcond, hle]
+      rw [scanLoop_failed _ _ hstep]; exact hstep
+    · have hstep : step s (digitChar d) =
+          { s with n := s.n + 1, lExp := 10 * s.lExp + d, aExpSgn := false, aSgn := false } := by
+        simp [step, f1, f2, hcond, hle]
+      have hg' : ¬ GuardOK (10 * s.lExp + d) ds := fun h => hg ⟨not_lt.mp hle, h⟩
+      have := ih (step s (digitChar d)) (by rw [hstep]; exact hm) (by rw [hstep]; exact hn) hds
+        (by rw [hstep]; exact hf) (by rw [hstep]; exact hg')
+      simpa [digs] using this
+
+theorem scanLoop_mantissa (l : Lit) (hw : l.WF) (r : List Char) :
+    scanLoop {} (l.sg.chars ++ (digs l.ip ++ ((match l.fp with | none => [] | some f => '.' :: digs f) ++ r))) =
+      scanLoop (S3 l) r := by
+  rw [phase1, phase2 l hw, phase3 l hw]
+
+/-- **C10, exponent guard.**  A literal whose mantissa is well formed and whose exponent digits do
+not pass the guard (more than five significant digits) is not read at all: zero characters, value
+untouched — whatever follows. -/
+theorem scan_exponent_guard (l : Lit) (hw : l.WF) (up : Bool) (sg : Sign) (e : List Nat)
+    (hed : ∀ d ∈ e, d < 10) (hg : ¬ GuardOK 0 e) (rest : List Char) :
+    scan (({ l with ex := some (up, sg, e) } : Lit).render ++ rest) = (0, Val.none) := by
+  have F := S3_facts l hw
+  unfold scan
+  apply result_failed
+  have hr : ({ l with ex := some (up, sg, e) } : Lit).render ++ rest =
+      l.sg.chars ++ (digs l.ip ++ ((match l.fp with | none => [] | some f => '.' :: digs f) ++
+        ((if up then 'E' else 'e') :: (sg.chars ++ (digs e ++ rest))))) := by
+    simp [Lit.render, List.append_assoc]
+  rw [hr, scanLoop_mantissa l hw]
+  have hacc : accepts (S3 l) (if up then 'E' else 'e') = true := by
+    cases up <;> simp [accepts, F.aExp, isDigit]
+  rw [scanLoop_accept _ _ _ hacc F.fail]
+  have hf3e : (S3e l).fail = false := F.fail
+  have hstep : step (S3 l) (if up then 'E' else 'e') = S3e l := by
+    cases up <;> simp [step, isDigit, S3e]
+  rw [hstep]
+  have hn1 : (S3e l).nDig ≠ 0 := F.nDig
+  have hg0 : ¬ GuardOK (S3 l).lExp e := by rw [F.lExp]; exact hg
+  cases sg with
+  | none =>
+    simp only [Sign.chars, List.nil_append]
+    exact exp_digits_fail (S3e l) e rest rfl hn1 hed hf3e hg0
+  | plus =>
+    simp only [Sign.chars, List.cons_append, List.nil_append]
+    rw [scanLoop_accept _ _ _ (by simp [accepts, S3e]) hf3e]
+    have hs2 : step (S3e l) '+' = S3s l false := by
+      simp [step, isDigit, S3e, S3s, F.expSgn]
+    rw [hs2]
+    exact exp_digits_fail (S3s l false) e rest rfl F.nDig hed F.fail hg0
+  | minus =>
+    simp only [Sign.chars, List.cons_append, List.nil_append]
+    rw [scanLoop_accept _ _ _ (by simp [accepts, S3e]) hf3e]
+    have hs2 : step (S3e l) '-' = S3s l true := by
+      simp [step, isDigit, S3e, S3s]
+    rw [hs2]
+    exact exp_digits_fail (S3s l true) e rest rfl F.nDig hed F.fail hg0
 
 end Qsx.Num
